@@ -154,7 +154,7 @@ def run_modes(pa, c, d, D, de_int, scale, tol, band, *, backends, modes, search,
             if modelopt is not None:
                 mo = modelopt["pruned" if mode == "partition" else "softp"]
             rec = ar.make_record(pa, c, d, al, D, de_int, scale, mode, tol, search=search, band=band,
-                                 want_backend=be, got_backend=got, modelopt=mo,
+                                 want_backend="GLPK_MI" if be == "CBC_FAILS" else be, got_backend=got, modelopt=mo,
                                  with_recompute=recompute, cands=cand_obs if (cands and mode == "partition" and be == backends[0]) else None,
                                  rng=rng, meta=dict(meta or {}, mode=mode, backend=be, secs=round(time.time() - t0, 4)))
             recs.append(rec)
@@ -406,12 +406,14 @@ def run_property(pid, tier, rep):
     elif pid == "C08":
         insts = l1_align(rep, ["2x2", "3x1"] if quick else ["2x2", "2x2de2", "2x3", "3x1", "3x2", "4x1", "5x1"], emit=True,
                          sample_mult=1 if quick else 3)
-        recs = l2_records(pa, insts, both, ["partition", "soft"], rng, violations, limit=150 if quick else None)
-        recs += l3_records(pa, rng, 200 if quick else 3000, both, ["partition", "soft"], violations, cands=False, recompute=False)
+        recs = l2_records(pa, insts, both, ["partition", "soft"], rng, violations, limit=110 if quick else None)
+        # third configuration: cylp imports but CBC fails at run time (SolverError): the same fallback must take over
+        recs += l3_records(pa, rng, 40 if quick else 800, ["CBC_FAILS"], ["partition", "soft"], violations, cands=False, recompute=False)
+        recs += l3_records(pa, rng, 140 if quick else 3000, both, ["partition", "soft"], violations, cands=False, recompute=False)
         # medium continua (beyond the optimality search): the two back-ends must still agree with each other
-        recs += l3_records(pa, rng, 80 if quick else 1000, both, ["partition", "soft"], violations, cands=False, recompute=False,
+        recs += l3_records(pa, rng, 60 if quick else 1000, both, ["partition", "soft"], violations, cands=False, recompute=False,
                            search=False, shapes=[(3, 7), (4, 5), (2, 15), (5, 4), (3, 9)], unlabelled=0.0)
-        recs += l3_records(pa, rng, 500 if quick else 5000, both, ["partition"], violations, cands=False, recompute=False,
+        recs += l3_records(pa, rng, 360 if quick else 5000, both, ["partition"], violations, cands=False, recompute=False,
                            search=False, shapes=[(3, 7), (3, 8), (4, 5), (3, 6)], unlabelled=0.0, dense=True)
         recs = add_other_backend_cost(recs)
     elif pid == "C11":
